@@ -18,6 +18,10 @@ def _const(e, v):
     return isinstance(e, ast.Constant) and e.value is v
 
 
+def _strict(e):
+    return isinstance(e, ast.Constant) and (e.value is None or e.value == 'strict')
+
+
 # ---------------------------------------------------------------- K1
 def k1_success_condition(core, rep):
     s = core.solver
@@ -423,6 +427,20 @@ def k6_single_value_writer(core, rep):
 
 
 def k7_missing_key_raises(core, rep):
+    # the store keeps what it is handed: the value a definition produced (already rounded to the line's own places by its
+    # field) is what every reader and the solution see
+    st_ = core.method('ValueStore', '__setitem__')
+    ps = [a.arg for a in st_.node.args.args]
+    if len(ps) != 3:
+        raise AnalysisError('ValueStore.__setitem__ does not take (self, key, value) (anchor vanished)')
+    kp, vp = ps[1], ps[2]
+    rebound = [n for n in ast.walk(st_.node) if isinstance(n, (ast.Assign, ast.AugAssign, ast.AnnAssign))
+               and any(isinstance(t, ast.Name) and t.id in (kp, vp) for t in (n.targets if isinstance(n, ast.Assign) else [n.target]))]
+    writes = [n for n in ast.walk(st_.node) if isinstance(n, ast.Assign) and isinstance(n.targets[0], ast.Subscript) and self_attr(n.targets[0].value) == 'values']
+    ok = not rebound and len(writes) == 1 and unparse(writes[0].targets[0].slice) == kp and isinstance(writes[0].value, ast.Name) and writes[0].value.id == vp
+    rep.ob('K7', 'store-keeps-the-value-it-is-given', ok,
+           f'ValueStore.__setitem__ does not store the value it is handed under the key it is handed ({unparse((rebound or writes or [st_.node])[0], 60)}): the stored line differs from what its '
+           'definition yields (a line declared with 3 or 5 places is cut to cents, say) and everything that reads it is computed from the altered value', _w(st_))
     f = core.method('ValueStore', '__getitem__')
     key = f.node.args.args[1].arg
     rets = [r for r in ast.walk(f.node) if isinstance(r, ast.Return)]
@@ -612,7 +630,7 @@ def k12_schedule_once(core, rep):
             fn = enclosing_function(c)
             rep.ob('K12', f'who-schedules/{rel}:{fn.name}', rel == s.rel and fn.name in allowed,
                    f'{fn.name}() schedules lines through {add.name}(); only adding a form, a discovered dependency or an explicitly requested line may', f'{rel}:{c.lineno}')
-    if n_calls < 3:
+    if n_calls < 2:
         raise AnalysisError(f'only {n_calls} scheduling sites found (anchor vanished)')
     # the queue is written only by _add_unattempted (extend/append/sort) and popped only in solve
     for rel, n in core.all_nodes(ast.Attribute):
@@ -633,6 +651,12 @@ def k12_schedule_once(core, rep):
     dep = f'{h.name}.dependency'
     hcalls = [n for n in g.nodes if n.kind == 'stmt' and any(call_name(c) == add.name for c in calls_in(n.ast)) and any(n.ast in ast.walk(b) for b in h.body)]
     rep.ob('K12', 'handler-schedules', len(hcalls) == 1, f'the UnmetDependency handler schedules {len(hcalls)} times', _w(af, h))
+    # the line a definition turned out to need is queued, never evaluated from inside the handler: an evaluation on the spot
+    # happens before the line is marked as being solved, so a cycle of on-demand lines recurses without bound
+    inner = [c for b in h.body for c in calls_in(b) if call_name(c) in (af.name, 'value', '_value')]
+    rep.ob('K12', 'handler-evaluates-nothing', not inner,
+           f'the UnmetDependency handler calls {unparse(inner[0], 60) if inner else ""}: the missing line is evaluated on the spot instead of being queued, before it is marked as being solved - '
+           'on a cycle (or self-reference) of on-demand lines the attempts nest until the interpreter gives up (RecursionError out of solve())', f'{af.rel}:{inner[0].lineno}' if inner else _w(af, h))
     for n in hcalls:
         facts = g.branch_facts(n)
         ok = (f'{dep} not in self.{s.solving}', True) in facts or (f'{dep} in self.{s.solving}', False) in facts
@@ -1000,6 +1024,25 @@ def k19_writeback_finally(core, rep):
             n = getattr(n, 'parent', None)
         rep.ob('K19', 'write-back-unconditional-but-for-the-flag', conds == ['args.writeback_input'],
                f'the write-back is guarded by {conds}; it must depend on --writeback-input only (not on success)', _w(f, w))
+        # nothing the finally block looks at before the write may be bound only inside the try body: when solve() raised, such
+        # a name is unbound and the UnboundLocalError pre-empts the write
+        bound_in_try = {x.id for b in t.body for x in ast.walk(b) if isinstance(x, ast.Name) and isinstance(x.ctx, ast.Store)}
+        before_try = set()
+        for st in f.node.body:
+            if st is t:
+                break
+            before_try |= {x.id for x in ast.walk(st) if isinstance(x, ast.Name) and isinstance(x.ctx, ast.Store)}
+        risky = []
+        done = False
+        for st in fin:
+            for x in ast.walk(st):
+                if isinstance(x, ast.Name) and isinstance(x.ctx, ast.Load) and x.id in bound_in_try - before_try \
+                        and (x.lineno, x.col_offset) <= (w.lineno, w.col_offset):
+                    risky.append(x)
+        rep.ob('K19', 'finally-reads-nothing-bound-in-the-try-before-the-write', not risky,
+               f'the finally block reads `{risky[0].id if risky else ""}` before it writes the answers back; that name is bound only inside the try body, so when Solver.solve() raises '
+               '(end of input, an unsupported form, a failing line) it is unbound and the UnboundLocalError replaces the write: every answer of the session is lost',
+               f'habutax/__init__.py:{risky[0].lineno}' if risky else _w(f, w))
     # handlers of this try must not swallow
     for h in t.handlers:
         rep.ob('K19', f'handler-reraises/{"|".join(_handler_types(h))}', _is_reraise(h), 'a handler around Solver.solve() swallows the exception', _w(f, h))
@@ -1364,6 +1407,34 @@ def k23_filler(core, rep):
                f'the intermediate PDF of a form is not named after {lv}.name() (form name plus instance): two instances of one form would overwrite each other and one would be filed twice', _w(fl))
         apps = [c for b in loops[0].body for c in calls_in(b) if call_name(c) == 'append' and [unparse(a) for a in c.args] == [outvar]]
         rep.ob('K23b', 'every-filled-form-is-concatenated', len(apps) == 1, 'a filled form is not handed to the final concatenation exactly once', _w(fl))
+        if len(apps) == 1:
+            acc = unparse(apps[0].func.value)
+            uses = [c for c in calls_in(fl.node) if call_name(c) in ('extend', 'run') or (isinstance(c.func, ast.Attribute) and c.func.attr == 'extend')]
+            handed = []
+            for c in calls_in(fl.node):
+                if c is apps[0]:
+                    continue
+                for a in list(c.args) + [k.value for k in c.keywords]:
+                    if any(isinstance(x, ast.Name) and x.id == acc for x in ast.walk(a)):
+                        handed.append((c, a))
+            def _keeps_order(a):
+                if isinstance(a, ast.Name):
+                    return True
+                if isinstance(a, ast.Call) and isinstance(a.func, ast.Name) and a.func.id in ('list', 'tuple') and len(a.args) == 1:
+                    return _keeps_order(a.args[0])
+                if isinstance(a, ast.Subscript) and isinstance(a.slice, ast.Slice) and a.slice.lower is None and a.slice.upper is None and a.slice.step is None:
+                    return _keeps_order(a.value)
+                if isinstance(a, ast.Starred):
+                    return _keeps_order(a.value)
+                if isinstance(a, (ast.List, ast.Tuple)):
+                    return all(_keeps_order(e) or not any(isinstance(x, ast.Name) and x.id == acc for x in ast.walk(e)) for e in a.elts)
+                if isinstance(a, ast.BinOp) and isinstance(a.op, ast.Add):
+                    return all(_keeps_order(e) or not any(isinstance(x, ast.Name) and x.id == acc for x in ast.walk(e)) for e in (a.left, a.right))
+                return False
+            bad = [(c, a) for c, a in handed if not _keeps_order(a)]
+            rep.ob('K23b', 'filled-forms-concatenated-in-fill-order', bool(handed) and not bad,
+                   f'the list of filled forms reaches the concatenation as `{unparse(bad[0][1], 50) if bad else "?"}`: the attachment order established by the sort is replaced by another order '
+                   '(file names sort alphabetically: Form 8959 before Form 8995, Schedule 8812 before Schedule A)', _w(fl, bad[0][0]) if bad else _w(fl))
     add = core.method('PDFFiller', '_add_form')
     app = [c for c in calls_in(add.node) if call_name(c) == 'append' and self_attr(c.func.value) == 'forms']
     rep.ob('K23b', 'one-instance-per-solution-section', len(app) == 1, 'a solution section does not map to exactly one form instance', _w(add))
@@ -1686,6 +1757,95 @@ def k32_solve_single_exit(core, rep):
            f'Solver.solve() has {len(rets_all)} return statements; the only one should be the last statement, after the verdict has been computed', _w(sv))
 
 
+# ---------------------------------------------------------------- K34 one mutable object standing in for many
+def _mutable_literal(e):
+    return isinstance(e, (ast.List, ast.Dict, ast.Set, ast.ListComp, ast.DictComp, ast.SetComp)) or \
+        (isinstance(e, ast.Call) and isinstance(e.func, ast.Name) and e.func.id in ('list', 'dict', 'set', 'defaultdict', 'OrderedDict'))
+
+
+def k34_no_shared_mutable_fill(core, rep, extra_modules=()):
+    """`dict.fromkeys(keys, [])` and `[[]] * n` put ONE list under every key / at every position.  Filling the entries in
+    place afterwards makes every entry show the union of all of them: each missing input would be quoted as needed by the
+    lines that wait for any missing input."""
+    n = 0
+    mods = dict(core.mods)
+    for rel in extra_modules:
+        mods[rel] = core.tree.module(rel) if hasattr(core, 'tree') else None
+    for rel, mod in mods.items():
+        if mod is None:
+            continue
+        for c in ast.walk(mod):
+            bad = None
+            if isinstance(c, ast.Call) and isinstance(c.func, ast.Attribute) and c.func.attr == 'fromkeys' and len(c.args) == 2 and _mutable_literal(c.args[1]):
+                bad = c
+            if isinstance(c, ast.BinOp) and isinstance(c.op, ast.Mult):
+                for side in (c.left, c.right):
+                    if isinstance(side, ast.List) and any(_mutable_literal(e) for e in side.elts):
+                        bad = c
+            if isinstance(c, (ast.Call, ast.BinOp)):
+                n += 1
+            if bad is not None:
+                # harmless as long as the entries are only ever replaced; it bites when one is changed in place
+                fn = enclosing_function(bad)
+                par = getattr(bad, 'parent', None)
+                nm = par.targets[0].id if isinstance(par, ast.Assign) and len(par.targets) == 1 and isinstance(par.targets[0], ast.Name) else None
+                scope = fn if fn is not None else mod
+                inplace = False
+                for x in ast.walk(scope):
+                    if isinstance(x, ast.AugAssign) and isinstance(x.target, ast.Subscript) and isinstance(x.target.value, ast.Name) and x.target.value.id == nm:
+                        inplace = True
+                    if isinstance(x, ast.Call) and isinstance(x.func, ast.Attribute) and x.func.attr in ('append', 'extend', 'add', 'update', 'insert', 'setdefault') \
+                            and isinstance(x.func.value, ast.Subscript) and isinstance(x.func.value.value, ast.Name) and x.func.value.value.id == nm:
+                        inplace = True
+                if nm is not None and not inplace:
+                    bad = None
+            if bad is not None:
+                fn = enclosing_function(bad)
+                rep.ob('K34', f'{rel}:{fn.name if fn else "module"}@{unparse(bad, 50)}', False,
+                       f'`{unparse(bad, 80)}` puts one and the same mutable object under every key / position: entries filled in place afterwards all show the union '
+                       '(every unmet dependency is reported with the dependents of all of them)', f'{rel}:{bad.lineno}')
+    rep.ob('K34', 'no-mutable-object-shared-between-entries', True)
+    return n
+
+
+# ---------------------------------------------------------------- K22g every section of the solution is read back
+def k22g_every_section_read_back(core, rep):
+    """PDFFiller._add_form(section) registers the lines of the form and reads the section's values back on every normal
+    return: forms without a template of their own (W-2, 1099, worksheets) are read by the value functions of the forms
+    that are filled, and their values must come back typed like everything else."""
+    f = core.method('PDFFiller', '_add_form')
+    rets = [x for x in ast.walk(f.node) if isinstance(x, ast.Return)]
+    rep.ob('K22g', 'no-early-return-in-_add_form', not rets,
+           f'PDFFiller._add_form() returns early (`{unparse(_cond_of(rets[0]), 60) if rets else ""}`): the section of such a form is neither registered nor read back, so its numbers, flags and '
+           'enumeration members never reach the filler (value functions of other forms that look at them see nothing)', _w(f, rets[0]) if rets else _w(f))
+    must = {'_read_form_fields': None, 'append': None}
+    for st in f.node.body:
+        for c in calls_in(st):
+            nm = call_name(c)
+            if nm in must and must[nm] is None:
+                must[nm] = (st, c)
+    for nm, hit in must.items():
+        uncond = hit is not None and not isinstance(hit[0], (ast.If, ast.Try, ast.While, ast.For))
+        rep.ob('K22g', f'{nm}-unconditional', uncond, f'PDFFiller._add_form() does not call {nm}() on every path', _w(f))
+    callers = [c for fn in core.funcs if fn.rel == f.rel for c in calls_in(fn.node) if call_name(c) == '_add_form']
+    loops = [c for c in callers if any(isinstance(p_, ast.For) for p_ in _parents(c))]
+    rep.ob('K22g', 'called-for-every-section', bool(loops), 'PDFFiller no longer adds a form for every section of the solution', _w(f))
+
+
+def _parents(n):
+    p = getattr(n, 'parent', None)
+    while p is not None:
+        yield p
+        p = getattr(p, 'parent', None)
+
+
+def _cond_of(ret):
+    for p in _parents(ret):
+        if isinstance(p, ast.If):
+            return p.test
+    return ret
+
+
 # ---------------------------------------------------------------- K24 dependency tracker shape
 def k24_tracker_shape(core, rep, parts=('a', 'b', 'c', 'd')):
     s = core.solver
@@ -1992,6 +2152,7 @@ def k27_complete_diagnostics(core, rep):
     cli = 'habutax/__init__.py'
     f = core.func(cli, None, 'solve')
     getters = ('unimplemented_fields', 'unmet_input_dependencies', 'unmet_field_dependencies')
+    k34_no_shared_mutable_fill(core, rep)
     by_name = {}
     for g in core.funcs:
         if g.rel == cli and g.cls is None:
@@ -2222,6 +2383,7 @@ def k29_prompt_quotes_the_waiters(core, rep):
     fns = prompt_functions(core)
     if not fns:
         raise AnalysisError('no prompt callback found (anchor vanished)')
+    k34_no_shared_mutable_fill(core, rep)
     n = 0
     for f in fns:
         params = [a.arg for a in f.node.args.args]
@@ -2327,6 +2489,29 @@ def k23f_filling_keeps_no_state(core, rep):
                f'{c.rel}:{(writes[0] if writes else m).lineno}')
     if n < 2:
         raise AnalysisError('PDFFiller fill methods not found (anchor vanished)')
+    # nor does the module remember anything between fillers: a container at module level that a method writes into
+    # outlives the PDFFiller (forms of one tax year served to a solution of another)
+    mod = core.mods['habutax/pdf_filler.py']
+    globs = {t.id for st in mod.body if isinstance(st, (ast.Assign, ast.AnnAssign)) for t in (st.targets if isinstance(st, ast.Assign) else [st.target])
+             if isinstance(t, ast.Name) and st.value is not None and _mutable_literal(st.value)}
+    for fn in core.funcs:
+        if fn.rel != 'habutax/pdf_filler.py':
+            continue
+        for x in ast.walk(fn.node):
+            hit = None
+            if isinstance(x, (ast.Assign, ast.AugAssign)):
+                for t in (x.targets if isinstance(x, ast.Assign) else [x.target]):
+                    if isinstance(t, ast.Subscript) and isinstance(t.value, ast.Name) and t.value.id in globs:
+                        hit = x
+            if isinstance(x, ast.Call) and isinstance(x.func, ast.Attribute) and x.func.attr in MUTATORS + ('add', 'setdefault') and isinstance(x.func.value, ast.Name) and x.func.value.id in globs:
+                hit = x
+            if isinstance(x, ast.Global):
+                hit = x
+            if hit is not None:
+                rep.ob('K23f', f'{fn.qual}/writes-no-module-state@{unparse(hit, 40)}', False,
+                       f'{fn.qual}() stores into a module-level container (`{unparse(hit, 60)}`): it outlives the filler, so a second fill in the same process - another tax year, another return - '
+                       'is served forms, mappings or values remembered from the first', f'{fn.rel}:{hit.lineno}')
+    rep.ob('K23f', 'pdf_filler-keeps-no-module-state', True)
     # the lookup key inside _fill_form derives from the loop variable and the form parameter
     c, m = core.classes.find_method('PDFFiller', '_fill_form')
     form_param = m.args.args[1].arg
@@ -2395,6 +2580,29 @@ def k11e_parser_options(core, rep):
                    f'{rel}:{c.lineno}')
     if n < 3:
         raise AnalysisError('configuration parsers not found (anchor vanished)')
+    k11i_strict_decoding(core, rep)
+
+
+def k11i_strict_decoding(core, rep):
+    """the files the configuration parsers read are decoded strictly"""
+    # ... and the files they read are decoded strictly: a lenient decoder (errors='ignore' / 'replace' / 'surrogateescape')
+    # deletes or substitutes bytes before any validator sees the text, so "12<A0>595" reaches a line as 12595
+    m = 0
+    for rel, c in core.all_nodes(ast.Call):
+        if call_name(c) == 'open' and isinstance(c.func, ast.Name):
+            m += 1
+            err = [k for k in c.keywords if k.arg == 'errors']
+            pos = c.args[3] if len(c.args) > 3 else None            # open(file, mode, buffering, encoding, errors)
+            lenient = [k.value for k in err if not _strict(k.value)] + ([c.args[4]] if len(c.args) > 4 and not _strict(c.args[4]) else [])
+            fn = enclosing_function(c)
+            rep.ob('K11i', f'strict-decoding/{rel}@{fn.name if fn else "module"}:{unparse(c.args[0], 30) if c.args else ""}', not lenient,
+                   f'{unparse(c, 80)} decodes leniently: bytes that are not valid text are dropped or replaced before validation, so a damaged value is silently turned into a different, valid one', f'{rel}:{c.lineno}')
+        if call_name(c) in ('decode',) and isinstance(c.func, ast.Attribute):
+            lenient = [k.value for k in c.keywords if k.arg == 'errors' and not _strict(k.value)] + ([c.args[1]] if len(c.args) > 1 and not _strict(c.args[1]) else [])
+            if lenient:
+                rep.ob('K11i', f'strict-decoding/{rel}@decode:{c.lineno}', False, f'{unparse(c, 80)} decodes leniently', f'{rel}:{c.lineno}')
+    if m < 2:
+        raise AnalysisError('open() calls of the package not found (anchor vanished)')
 
 
 def k12c_who_calls(core, rep):
@@ -2476,6 +2684,17 @@ def k18b_write_reaches_the_file(core, rep):
                     cond = True
                 p = getattr(p, 'parent', None)
             moved.append((c, cond))
+    if moved and not direct:
+        # a rename only works inside one file system: the temporary file has to be created next to the target
+        def _mentions(e):
+            return any(isinstance(x, ast.Name) and x.id == fname for x in ast.walk(e))
+        makers = [c for c in calls_in(f.node) if call_name(c) in ('NamedTemporaryFile', 'mkstemp', 'TemporaryFile', 'SpooledTemporaryFile', 'mkdtemp')]
+        elsewhere = [c for c in makers if not any(k.arg == 'dir' and _mentions(k.value) for k in c.keywords)]
+        derived = [c for c in calls_in(f.node) if call_name(c) == 'open' and c.args and _mentions(c.args[0])]
+        rep.ob('K18b', 'temporary-file-next-to-the-target', not elsewhere and (bool(makers) or bool(derived)),
+               f'InputStore.write() creates its temporary file with `{unparse(elsewhere[0], 70) if elsewhere else "?"}`, i.e. in the system temporary directory, and renames it over the input file: '
+               'when the two are on different file systems the rename fails (EXDEV) - from the finally block of the CLI - and every answer of the session is lost',
+               _w(f, elsewhere[0] if elsewhere else f.node))
     ok = not uses_exc and (bool(direct) or any(not cond for _c, cond in moved))
     rep.ob('K18b', 'write-reaches-the-named-file', ok,
            'InputStore.write() does not put the configuration into the file it is given on every normal return '
@@ -2553,6 +2772,24 @@ def k22f_solution_written_unfiltered(core, rep):
     writes = [c for c in calls_in(f.node) if call_name(c) == 'write' and isinstance(c.func, ast.Attribute) and isinstance(c.func.value, ast.Name) and c.func.value.id == 'solution']
     if not writes:
         raise AnalysisError('CLI solve(): solution.write(...) not found (anchor vanished)')
+    # what is written is what the solver returned plus the one section that records the tax year: nothing else is put into
+    # it (sections kept from an earlier run are forms nothing of this run referred to)
+    sol = 'solution'
+    src = [x for x in ast.walk(f.node) if isinstance(x, ast.Assign) and any(isinstance(t_, ast.Name) and t_.id == sol for t_ in x.targets)]
+    from_solver = len(src) == 1 and isinstance(src[0].value, ast.Call) and call_name(src[0].value) == 'solution'
+    rep.ob('K22f', 'written-solution-is-the-solvers', from_solver, 'the object written as the solution is not exactly what Solver.solution() returned', _w(f))
+    extra = []
+    for x in ast.walk(f.node):
+        if isinstance(x, (ast.Assign, ast.AugAssign)):
+            for t_ in (x.targets if isinstance(x, ast.Assign) else [x.target]):
+                if isinstance(t_, ast.Subscript) and isinstance(t_.value, ast.Name) and t_.value.id == sol and not (isinstance(t_.slice, ast.Constant) and t_.slice.value == 'habutax'):
+                    extra.append(x)
+        if isinstance(x, ast.Call) and isinstance(x.func, ast.Attribute) and isinstance(x.func.value, ast.Name) and x.func.value.id == sol \
+                and x.func.attr in ('update', 'read', 'read_file', 'read_dict', 'read_string', 'add_section', 'setdefault', 'remove_section', 'pop', 'clear', 'set', 'remove_option'):
+            extra.append(x)
+    rep.ob('K22f', 'nothing-but-the-tax-year-is-added', not extra,
+           f'the CLI changes the solution before writing it (`{unparse(extra[0], 60) if extra else ""}`): sections are added to or removed from what the solver produced, so the file holds forms '
+           'or copies nothing in this run referred to (or lacks ones it did)', f'habutax/__init__.py:{extra[0].lineno}' if extra else _w(f))
     with_names = {}
     for w in ast.walk(f.node):
         if isinstance(w, ast.With):
